@@ -9,7 +9,7 @@ theorem or_eq_N : ∀ x y : CFV, CFV.or x y = .N ↔ x = .N ∧ y = .N := by dec
 theorem xor_eq_N : ∀ x y : CFV, CFV.xor x y = .N ↔ x = .N ∧ y = .N := by decide
 
 theorem condKeys_bin (o : Op) (l r : Expr) : condKeys (.bin o l r) = condKeys l ++ condKeys r := by
-  simp [condKeys, Expr.atoms, List.filterMap_append]
+  simp [condKeys, Expr.atoms, List.filterMap_append, Atom.condKey?]
 
 theorem Assigns.left {rcEnv hintEnv o l r} (h : Assigns rcEnv hintEnv (.bin o l r)) : Assigns rcEnv hintEnv l :=
   ⟨fun k hk => h.rc k (by rw [condKeys_bin]; exact List.mem_append_left _ hk),
@@ -51,7 +51,7 @@ variable {rcEnv : List Char → Option CFV} {hintEnv : List Char → Option Stri
 
 theorem good_leaf {k : List Char} (hwf : WF (.leaf (.cond k)) = true) (ha : Assigns rcEnv hintEnv (.leaf (.cond k))) :
     ∃ n, evalRc (mkEnv rcEnv hintEnv) (.leaf (.cond k)) = .ok n ∧ Good rcEnv (.leaf (.cond k)) n := by
-  have hk : k ∈ condKeys (.leaf (.cond k)) := by simp [condKeys, Expr.atoms]
+  have hk : k ∈ condKeys (.leaf (.cond k)) := by simp [condKeys, Expr.atoms, Atom.condKey?]
   simp only [WF] at hwf
   cases hc : catOf k with
   | none => simp [hc] at hwf
